@@ -51,7 +51,8 @@ THEOREMS = [
     'C11.normalized_idem_hexagonal', 'C11.normalized_idem_tetragonal', 'C11.normalized_idem_rhombohedral',
     'C11.normalized_idem_orthorhombic', 'C11.normalized_idem_isotropic', 'C11.is_normal_of_normalized',
     'C11.normalized_idem_monoclinic', 'C11.sijkl_setter_roundtrip', 'C11.object_step', 'C11.object_reads_pure',
-    'C11.object_read_order', 'C11.object_set_overwrites', 'C11.object_refused_set',
+    'C11.object_read_order', 'C11.object_set_overwrites', 'C11.object_refused_set', 'C11.transform_linear',
+    'C11.transform_unit_independent',
 ]
 PARTIAL = {
     'transform_with_cleanups': 'transform_id/comp/inv, energy and moduli invariance and system_invariant_* are proved for '
@@ -60,6 +61,10 @@ PARTIAL = {
     'implementation only up to those thresholds: checked by the tie and the oracle (atol 2.5e-8*max), not a theorem',
     'normalized_with_setter_cleanup': 'normalized_idem_* and is_normal_of_normalized are about the generated formulas, '
     'before the zeroing of relatively tiny entries by the Cij setter',
+    'unit_independence_of_setters': 'transform_unit_independent covers rotation + relative clean-up; the setters that follow '
+    '(Cijkl, Cij) compare with ABSOLUTE atol (numpy default 1e-8 / 1e-9) and are therefore not homogeneous in their '
+    'refusals: exactly symmetric tensors pass at every scale (setter_roundtrips, sijkl_setter_roundtrip), the float '
+    'behaviour at 2^-40..2^40 is checked by the scale sweeps of tie and oracle',
     'object_model': 'object_* theorems are about the Lean object model (state = one matrix; reads are functions of it); '
     'that the class has no other state (caches, aliased arrays) is what the `seq` correspondence and the read-order / '
     'set-sequence oracle check on every run, not a theorem about the Python object',
